@@ -119,4 +119,11 @@ Witness_Drift == ~(\E i \in 1..Len(hist) : hist[i].x > hist[i].v + 1)
 Witness_BackwardsClock == ~(\E i, j \in 1..Len(hist) : i < j /\ hist[j].v < hist[i].v)
 Witness_Contention == ~(lock # 0 /\ \E t \in Threads : t # lock /\ pc[t] = "idle" /\ calls[t] < K /\ calls[t] > 0)
 Witness_AllDone == ~Finished
+\* the same witnesses as stuttering probe actions: with NEXT NextW and -coverage, a non-zero count for W_x
+\* shows x is reachable without a separate TLC run (NextW is used for nothing else)
+W_Drift == ~Witness_Drift /\ UNCHANGED vars
+W_BackwardsClock == ~Witness_BackwardsClock /\ UNCHANGED vars
+W_Contention == ~Witness_Contention /\ UNCHANGED vars
+W_AllDone == ~Witness_AllDone /\ UNCHANGED vars
+NextW == Next \/ W_Drift \/ W_BackwardsClock \/ W_Contention \/ W_AllDone
 =============================================================================
